@@ -121,6 +121,28 @@ fn scenarios(out: &mut NdjsonWriter) {
         }
         r.catch_up_and_fresh();
     }
+    // F: a receipt orphaned by a rewind is mined again at a DIFFERENT position of its pool's tree (outputs of other
+    // transactions now precede it; a Sapling nullifier depends on the position), and is spent afterwards
+    for &pool in &[Pool::Sapling, Pool::Orchard] {
+        id += 1;
+        let mut r = Run::new(out, 4000 + id, false, json!(format!("F {}", pool.code())));
+        r.recv(pool, 11_000, false);
+        let n = r.recv(pool, 60_000, false);
+        r.tip_top();
+        r.scan(r.abs(1), 10);
+        r.trunc(r.abs(1), true);
+        if !r.orphaned.is_empty() {
+            let remined = vec![r.orphaned.remove(0)];
+            let foreign = TxReq { outs: (0..2).map(|_| OutReq { pool, acct: 0, internal: false, diversified: false, value: 5_000 }).collect(), spends: vec![], foreign_spends: vec![] };
+            r.block(&[foreign], &remined, true);
+            r.tip_top();
+            r.scan(r.abs(2), 5);
+            r.spend(n, 0, pool);
+            r.tip_top();
+            r.scan(r.abs(3), 5);
+        }
+        r.catch_up_and_fresh();
+    }
 }
 
 /// C06 scenarios: more non-empty blocks than the checkpoint budget (100), one pool silent for long
